@@ -78,7 +78,7 @@ def run_shard(pid, spec, timeout, tmpdir):
     if os.path.isfile(out):
         with open(out, 'rt', encoding='utf-8') as f:
             res = json.load(f)
-    return {'rc': rc, 'stdout': so, 'stderr': se, 'wall': wall, 'result': res}
+    return {'rc': rc, 'stdout': so, 'stderr': se, 'wall': wall, 'result': res, 'spec': spec}
 
 
 def replay_fresh(pid, witness_file, timeout=600):
@@ -172,6 +172,9 @@ def main(argv=None):
                         f'stderr={r["stderr"][-1500:]}'
                     )
                 else:
+                    for v in r['result'].get('violations', []):
+                        v['_spec'] = r['spec']
+                    r['result'].setdefault('extra', {})
                     results.append(r['result'])
     counters, distinct, samples, violations, inconclusive, extra = merge(results)
     inconclusive.extend(problems)
@@ -218,6 +221,22 @@ def main(argv=None):
                     break
             else:
                 unstable.append((mech, v, fn))
+        if not done:
+            # none reproduces on its own: state at module level of the code under test may leak from one case
+            # of a shard into the next.  Run the shard that reported it again, from a fresh process.
+            v = vs[0]
+            spec = dict(v.get('_spec') or {})
+            if spec:
+                spec['budget'] = float(spec.get('budget', 25.0)) * 2
+                spec['min'] = {}
+                fn = os.path.join(rdir, f'{pid}-{mech.replace("/", "_")}-shard{spec.get("index")}.json')
+                with open(fn, 'wt', encoding='utf-8') as f:
+                    json.dump({'property': pid, 'mechanism': mech, 'clause': v.get('clause'), 'detail': v.get('detail'),
+                               'witness': {'_rerun_shard': spec}}, f, indent=1, default=str)
+                ok, _res = replay_fresh(pid, fn, timeout=3600)
+                if ok:
+                    confirmed.append((mech, v, fn))
+                    unstable[:] = [u for u in unstable if u[0] != mech]
     wall = time.time() - t0
 
     # evidence
